@@ -11,7 +11,7 @@ PROTOS = ["netrpc", "grpc", "grpcmux"]
 def make_cases(tier, rng):
     cases = []
     hows = ["exit"] if tier == "quick" else ["exit", "kill"]
-    reps = 1 if tier == "quick" else 3
+    reps = 1 if tier == "quick" else 30
     for pt in POINTS:
         for pr in PROTOS:
             if pt == "in_stream" and pr == "netrpc":
